@@ -287,7 +287,12 @@ def check_monitor(ctx, R="C11.monitor"):
         stores = [n for n in ast.walk(loops[0]) if isinstance(n, ast.Assign) and isinstance(n.targets[0], ast.Subscript) and unparse(n.targets[0].slice) == f"str({v}.syntax_id)"]
         ok = len(calls) == 1 and src is not None and unparse(src) == "self._proposition.atomics()" and len(stores) == 1 and not any(isinstance(x, (ast.Continue, ast.Break)) for x in ast.walk(loops[0]))
     t = unparse(up)
-    if ok and "self._monitor.update(state)" in t and "return self._monitor.evaluate()" in t:
+    fed = False
+    if ok:
+        # the dictionary the loop fills is the one handed to the rv_ltl monitor
+        dname = unparse(stores[0].targets[0].value)
+        fed = f"self._monitor.update({dname})" in t
+    if ok and fed and "return self._monitor.evaluate()" in t:
         ctx.ok(R, up, "update(): one closure call per atom, all atoms fed to the monitor, verdict returned")
     else:
         ctx.finding(R, up, "PropositionMonitor.update", "PropositionMonitor.update no longer evaluates every atom exactly once and feeds the state to the rv_ltl monitor")
@@ -311,9 +316,12 @@ def check_monitor(ctx, R="C11.monitor"):
     good = False
     for lp in loops:
         g = [unparse(t) for t, p in lib.guard_tests(lp, sp) if p]
-        if "not quiet" in g and "lastValue.is_falsy" in unparse(lp):
+        falsy = [i for i in ast.walk(lp) if isinstance(i, ast.If) and unparse(i.test).endswith(".lastValue.is_falsy")]
+        sets = [a.targets[0].id for i in falsy for a in i.body if isinstance(a, ast.Assign) and isinstance(a.targets[0], ast.Name)]
+        raised = [r for r in ast.walk(sp) if isinstance(r, ast.Raise) and isinstance(r.exc, ast.Call) and dotted(r.exc.func) == "RejectSimulationException" and r.exc.args and unparse(r.exc.args[0]) in sets]
+        if "not quiet" in g and falsy and raised:
             good = True
-    if good and "raise RejectSimulationException(rejection)" in unparse(sp):
+    if good:
         ctx.ok(R, sp, "_stop: a falsy last verdict rejects the simulation unless stopping quietly")
     else:
         ctx.finding(R, sp, "_stop final verdict", "DynamicScenario._stop no longer rejects when a requirement monitor's last value is falsy (unless quiet)")
@@ -321,7 +329,18 @@ def check_monitor(ctx, R="C11.monitor"):
     ds = model.cls(DS, "DynamicScenario")
     SETUP_TIME = {"__init__", "_bindTo", "_inherit", "_merge", "_compileRequirements", "_prepare", "_dummy", "_requirementsToScene"}
     start = ds.methods.get("_start")
-    if start is None or "self._requirementMonitors = [r.toMonitor() for r in self._temporalRequirements]" not in unparse(start):
+    derived = start is not None and any(
+        isinstance(n, ast.Assign)
+        and unparse(n.targets[0]) == "self._requirementMonitors"
+        and isinstance(n.value, ast.ListComp)
+        and len(n.value.generators) == 1
+        and not n.value.generators[0].ifs
+        and unparse(n.value.generators[0].iter) == "self._temporalRequirements"
+        and isinstance(n.value.generators[0].target, ast.Name)
+        and unparse(n.value.elt) == f"{n.value.generators[0].target.id}.toMonitor()"
+        for n in walk_local(start)
+    )
+    if not derived:
         raise AnalysisError("shape not recognised: DynamicScenario._start no longer derives _requirementMonitors from _temporalRequirements")
     n_mut = 0
     for mname, fn in ds.methods.items():
